@@ -642,6 +642,9 @@ func (c *c12) RunCase(w *core.Worker, idx int, seed uint64, res *core.CaseResult
 				continue
 			}
 			judge(name+"-at-device", jsonLex(leafV))
+			if name == "json-ietf" {
+				c.identityPrefix(res, desc, name+"-at-device", t, jsonLex(leafV))
+			}
 		}
 		x := rec.Views.XML[fixture.XMLOpt{OnlyNew: true}]
 		ch, err := model.DecodeXML(x, model.XMLOpts{})
@@ -678,6 +681,9 @@ func (c *c12) RunCase(w *core.Worker, idx int, seed uint64, res *core.CaseResult
 			continue
 		}
 		judge("getdata-"+enc.String(), v)
+		if enc == sdcpb.Encoding_JSON_IETF {
+			c.identityPrefix(res, desc, "getdata-JSON_IETF", t, v)
+		}
 	}
 	if len(res.Findings) > 0 {
 		return
@@ -1016,4 +1022,24 @@ func (c *c12) xmlCase(idx int, cs c12Case, t model.TypeDef, want, desc string, r
 
 func xmlEscape(s string) string {
 	return strings.NewReplacer("&", "&amp;", "<", "&lt;", ">", "&gt;").Replace(s)
+}
+
+// identityPrefix: in a JSON_IETF document an identityref (a leaf or every element of a leaf-list) is written as
+// <module-name>:<identity> (RFC 7951, 6.8); the module is the one that defines the identity.
+func (c *c12) identityPrefix(res *core.CaseResult, desc, where string, t model.TypeDef, lex string) {
+	if t.Kind != "identityref" {
+		return
+	}
+	for _, el := range strings.Split(strings.TrimPrefix(lex, "LL:"), ",") {
+		res.Count("identityref_prefixes_checked", 1)
+		i := strings.IndexByte(el, ':')
+		if i < 0 {
+			res.Violate("C12/"+where+"-identityref-without-module", "%s: %s carries the identity %q without its module (want %s:%s)", desc, where, el, model.IdentityModule[el], el)
+			return
+		}
+		if want := model.IdentityModule[el[i+1:]]; el[:i] != want {
+			res.Violate("C12/"+where+"-identityref-with-wrong-module", "%s: %s carries %q, the identity is defined in module %s", desc, where, el, want)
+			return
+		}
+	}
 }
